@@ -11,6 +11,7 @@ import (
 	"errors"
 	"fmt"
 	"math/big"
+	"os"
 	"sort"
 	"strings"
 	"time"
@@ -711,12 +712,25 @@ func (nm *NodeMachine) Apply(op NOp) error {
 			return nil
 		}
 		if ok, _ := n.Ledger.VerifyBlock(blk, ""); !ok {
+			if alteredAt >= 0 {
+				// a body that does not hash to the id it is filed under: refused before the ledger stores anything
+				nm.LastOutcome = "forbidden"
+				nm.Stat["peer-forbidden-altered-copy"]++
+				return nil
+			}
 			return fmt.Errorf("VerifyBlock refuses block %s formatted by the node", op.Label)
 		}
 		if op.PresetNext {
 			h := sha256.Sum256(append([]byte("no-such-successor-"), blk.Blockid...))
 			blk.NextHash = h[:]
 			nm.Stat["peer-preset-nexthash"]++
+		}
+		if os.Getenv("VERIF_SELFCHECK") != "" {
+			for i, tx := range txs {
+				if id, _ := txhash.MakeTransactionID(tx); !bytes.Equal(id, tx.Txid) && i != alteredAt && tx.Version > 0 {
+					fmt.Printf("SELFCHECK block %s tx %d: id %x content hashes to %x (txmut=%q)\n", op.Label, i, tx.Txid, id, op.TxMut)
+				}
+			}
 		}
 		pristine := CloneTxs(txs)
 		if alteredAt >= 0 && alteredAt < len(pristine) {
@@ -1424,6 +1438,17 @@ func (nm *NodeMachine) rawKeys() []string {
 
 // CheckState compares every state observable of the live node with the model (C01 oracle a, C02).
 func (nm *NodeMachine) CheckState() error {
+	if os.Getenv("VERIF_SELFCHECK") != "" {
+		for bi, btxs := range nm.BlockTxs {
+			for _, tx := range btxs {
+				if lt, err := nm.N.Ledger.QueryTransaction(tx.Txid); err == nil && !nm.Altered[tx] {
+					if id, _ := txhash.MakeTransactionID(lt); !bytes.Equal(id, lt.Txid) && lt.Version > 0 {
+						fmt.Printf("SELFCHECK ledger copy of tx %x (block idx %d) hashes to %x\nLEDGER %v\nORIG   %v\n", lt.Txid, bi, id, lt, tx)
+					}
+				}
+			}
+		}
+	}
 	s := nm.PoolState()
 	m := nm.LM.M
 	want := ExpectedObs(s, m.Blocks[nm.Ptr].ID, nm.AddrUniv, nm.rawKeys(), nm.ledgerHeight())
